@@ -297,7 +297,7 @@ def rule_red(repo, closed=None):
     if closed is None:
         closed, prim, _ = classify_u256(repo)
     R = Rule("R-RED", "every write to the limbs of a prime-field element is by a reduction-closed operation against "
-             "the type's own modulus (typestate Reduced)", floor=28)
+             "the type's own modulus (typestate Reduced)", floor=10)
     mod_int = {ap: repo.static_int(info["modulus"]) for ap, info in fp.items()}
 
     def crosses(body, place):
